@@ -11,6 +11,7 @@ import collections
 import functools
 import inspect
 import sys
+import threading
 
 from pycel.excelutil import (
     AddressCell,
@@ -315,11 +316,36 @@ def refs_wrapper(f, name_space, param_indices=None):
             else:
                 yield arg
 
-    @functools.wraps(f)
-    def wrapper(*args):
-        return f(*tuple(resolve_args(args)))
+    if getattr(f, 'needs_name_space', False) and _C_ is not None:
+        # the function evaluates cells itself: it has to do that with the
+        # evaluator of the formula (and model) it is called from
+        @functools.wraps(f)
+        def wrapper(*args):
+            stack = _calling.__dict__.setdefault('stack', [])
+            stack.append(name_space)
+            try:
+                return f(*tuple(resolve_args(args)))
+            finally:
+                stack.pop()
+    else:
+        @functools.wraps(f)
+        def wrapper(*args):
+            return f(*tuple(resolve_args(args)))
 
     return wrapper
+
+
+_calling = threading.local()
+
+
+def caller_name_space(f):
+    """name space of the formula which called the library function `f`
+    that is running now (for functions marked `needs_name_space`)"""
+    stack = getattr(_calling, 'stack', None)
+    if stack:
+        return stack[-1]
+    # called directly, not from a formula
+    return getattr(f, FUNC_META)['name_space']
 
 
 def built_in_wrapper(f, wrapper_marker, name_space):
